@@ -82,6 +82,14 @@ func runC09(c *core.Ctx) {
 }
 
 func strConstCmp(cd facts.Cond, fld string, want string) (eq bool, ok bool) {
+	if want == "" {
+		// x == "", len(x) == 0, len(x) > 0, ...
+		if x, isEmpty, okE := facts.EmptyTest(cd); okE {
+			if _, f, isF := facts.FieldOf(facts.Resolve(x)); isF && f == fld {
+				return isEmpty, true
+			}
+		}
+	}
 	x, op, y, okc := facts.Cmp(cd)
 	if !okc {
 		return false, false
@@ -193,47 +201,57 @@ func c09Sentinel(c *core.Ctx, rs *types.Named) {
 	}
 	c.Analysed("ociauth.NewScope")
 	nApp := 0
-	for _, ci := range facts.CallsIn(ns) {
-		bi, ok := ci.Common().Value.(*ssa.Builtin)
-		if !ok || bi.Name() != "append" {
-			continue
-		}
-		if _, fld, isF := facts.FieldOf(facts.Resolve(ci.Common().Args[0])); !isF || fld != "repositories" {
-			continue
-		}
-		nApp++
-		// the appended element(s)
-		elemConstEmpty := false
-		if sl, ok := ci.Common().Args[1].(*ssa.Slice); ok {
-			if al, ok := sl.X.(*ssa.Alloc); ok {
-				for _, ref := range *al.Referrers() {
-					if ia, ok := ref.(*ssa.IndexAddr); ok {
-						for _, st := range facts.StoresTo(ia) {
-							if s, isS := facts.ConstString(st.Val); isS && s == "" {
-								elemConstEmpty = true
+	for _, f := range withHelpers(ns) {
+		for _, ci := range facts.CallsIn(f) {
+			bi, ok := ci.Common().Value.(*ssa.Builtin)
+			if !ok || bi.Name() != "append" {
+				continue
+			}
+			if _, fld, isF := facts.FieldOf(facts.Resolve(ci.Common().Args[0])); !isF || fld != "repositories" {
+				continue
+			}
+			// the appended element(s)
+			var elems []ssa.Value
+			if sl, ok := ci.Common().Args[1].(*ssa.Slice); ok {
+				if al, ok := sl.X.(*ssa.Alloc); ok {
+					for _, ref := range *al.Referrers() {
+						if ia, ok := ref.(*ssa.IndexAddr); ok {
+							for _, st := range facts.StoresTo(ia) {
+								elems = append(elems, st.Val)
 							}
 						}
 					}
 				}
 			}
-		}
-		known, registry, notRegistry := false, false, false
-		for _, cd := range facts.CondsAt(ci.Block()) {
-			if call, ok := cd.V.(*ssa.Call); ok && cd.Pos && call.Call.StaticCallee() != nil && fnName(call.Call.StaticCallee()) == "isKnown" {
-				known = true
-			}
-			if eq, ok := strConstCmp(cd, "ResourceType", "registry"); ok {
-				if eq {
-					registry = true
+			// judged in every calling context (the append may sit in a private helper
+			// that is handed the element and is called under the checks)
+			for _, cx := range contextsOf(ci.Block(), 3) {
+				nApp++
+				elemConstEmpty := false
+				for _, e := range elems {
+					if s, isS := facts.ConstString(cx.up(e)); isS && s == "" {
+						elemConstEmpty = true
+					}
+				}
+				known, registry, notRegistry := false, false, false
+				for _, cd := range cx.Conds {
+					if call, ok := cd.V.(*ssa.Call); ok && cd.Pos && call.Call.StaticCallee() != nil && fnName(call.Call.StaticCallee()) == "isKnown" {
+						known = true
+					}
+					if eq, ok := strConstCmp(cd, "ResourceType", "registry"); ok {
+						if eq {
+							registry = true
+						} else {
+							notRegistry = true
+						}
+					}
+				}
+				if elemConstEmpty {
+					c.Check(known && registry, "C09.R1", "NewScope/sentinel-append", ci.Pos(), "the catalog sentinel is stored only for a known registry-typed scope", "the catalog sentinel \"\" is appended to repositories on a path that is not (isKnown and registry-typed)")
 				} else {
-					notRegistry = true
+					c.Check(known && notRegistry, "C09.R1", "NewScope/name-append", ci.Pos(), "names are stored only for known, non-registry scopes", "a caller-supplied name is appended to repositories on a path where isKnown() (hence Resource != \"\") or not-registry-typed is not established")
 				}
 			}
-		}
-		if elemConstEmpty {
-			c.Check(known && registry, "C09.R1", "NewScope/sentinel-append", ci.Pos(), "the catalog sentinel is stored only for a known registry-typed scope", "the catalog sentinel \"\" is appended to repositories on a path that is not (isKnown and registry-typed)")
-		} else {
-			c.Check(known && notRegistry, "C09.R1", "NewScope/name-append", ci.Pos(), "names are stored only for known, non-registry scopes", "a caller-supplied name is appended to repositories on a path where isKnown() (hence Resource != \"\") or not-registry-typed is not established")
 		}
 	}
 	if nApp < 2 {
@@ -252,7 +270,7 @@ func c09Sentinel(c *core.Ctx, rs *types.Named) {
 			}
 			nSearch++
 			c.Analysed(facts.FuncName(fn))
-			conds := condsAtUp(ci.Block(), 2)
+			conds := withPhiImplied(condsAtUp(ci.Block(), 2))
 			if s, isS := facts.ConstString(a[1]); isS && s == "" {
 				okCat := false
 				for _, cd := range conds {
